@@ -411,3 +411,157 @@ Proof.
   intros H; inversion H; subst; intros K; apply (Fin _ K); cbn [app In]; intros ee Ie;
   repeat (destruct Ie as [Ie|Ie]; [subst ee; auto; right; right; intros k; split; discriminate|]); contradiction.
 Qed.
+
+(** ------------------------------------------------------------------ *)
+(** * The objects the operating system opens *)
+Lemma cwalk_app root a : forall st b,
+  cwalk root st (a ++ b) = match cwalk root st a with Some st' => cwalk root st' b | None => None end.
+Proof.
+  induction a as [|s a IH]; intros st b; cbn [app cwalk]; [reflexivity|].
+  destruct (descend root (rev st)) as [n|]; [|reflexivity].
+  destruct (negb (is_dir n)); [reflexivity|].
+  destruct (is_empty s || is_dot s); [apply IH|].
+  destruct (is_dotdot s); [apply IH|].
+  destruct (child n s); [apply IH|reflexivity].
+Qed.
+
+Lemma cwalk_plain root pre : forall st st',
+  Forall plain_seg pre -> cwalk root st pre = Some st' -> st' = rev (names_of pre) ++ st.
+Proof.
+  induction pre as [|s pre IH]; intros st st' H; cbn [cwalk names_of filter].
+  - intros E. inversion E. reflexivity.
+  - inversion H as [|s0 pre0 Hs Hp]; subst.
+    destruct (descend root (rev st)) as [n|]; [|discriminate].
+    destruct (negb (is_dir n)); [discriminate|].
+    destruct Hs as [->|Hs].
+    + cbn [is_empty orb negb]. apply IH. exact Hp.
+    + destruct (proper_name_flags s Hs) as (E1 & E2 & E3). rewrite E1, E2, E3. cbn [orb negb].
+      destruct (child n s); [|discriminate]. intros E. apply IH in E; [|exact Hp].
+      subst st'. cbn [rev]. fold (names_of pre). rewrite <- app_assoc. reflexivity.
+Qed.
+
+Lemma descend_snoc root l x n :
+  descend root (l ++ [x]) = Some n -> exists m, descend root l = Some m /\ child m x = Some n.
+Proof.
+  revert root. induction l as [|a l IH]; intros root; cbn [app descend].
+  - destruct (child root x) as [c|] eqn:E; [|discriminate]. intros H. inversion H; subst. exists root. auto.
+  - destruct (child root a) as [c|]; [|discriminate]. apply IH.
+Qed.
+
+Lemma child_is_dir m x n : child m x = Some n -> is_dir m = true.
+Proof. destruct m; [discriminate|reflexivity]. Qed.
+
+(** the object a safe request path names: a directory, or something strictly below the public directory *)
+Lemma opened_safe_inside tree host public t stP names isdir :
+  unsafe_b (c_slash :: t) = false ->
+  cwalk tree [] (segments (host ++ [c_slash] ++ public)) = Some stP ->
+  opened tree (make_path host public t None) = Some (names, isdir) ->
+  isdir = true \/
+  exists rel, rel <> [] /\ Forall (fun s => proper_name s = true) rel /\ names = rev stP ++ rel.
+Proof.
+  intros U HP. unfold opened, make_path.
+  replace (host ++ [c_slash] ++ public ++ [c_slash] ++ t) with ((host ++ [c_slash] ++ public) ++ [c_slash] ++ t)
+    by (rewrite <- !app_assoc; reflexivity).
+  rewrite segments_join, cwalk_app, HP.
+  destruct (safe_shape _ U) as (t0 & pre & last_ & E & _ & Es & Hp). inversion E; subst t0.
+  rewrite Es, cwalk_app.
+  destruct (cwalk tree stP pre) as [st1|] eqn:C1; [|discriminate].
+  apply cwalk_plain in C1; [|exact Hp]. subst st1.
+  set (st1 := rev (names_of pre) ++ stP).
+  cbn [cwalk].
+  destruct (descend tree (rev st1)) as [n|] eqn:D1; [|discriminate].
+  destruct (negb (is_dir n)) eqn:Dn; [discriminate|]. apply negb_false_iff in Dn.
+  destruct (is_empty last_ || is_dot last_) eqn:Eed.
+  { rewrite D1. intros H. inversion H; subst. left. exact Dn. }
+  destruct (is_dotdot last_) eqn:Edd.
+  { destruct st1 as [|x st1'] eqn:Est; cbn [tl].
+    - cbn [rev] in *. rewrite D1. intros H. inversion H; subst. left. exact Dn.
+    - cbn [rev] in D1. apply descend_snoc in D1. destruct D1 as (m & Dm & Cm).
+      rewrite Dm. intros H. inversion H; subst. left. exact (child_is_dir _ _ _ Cm). }
+  destruct (child n last_) as [c|] eqn:Cl; [|discriminate].
+  cbn [rev]. 
+  destruct (descend tree (rev st1 ++ [last_])) as [o|]; [|discriminate].
+  intros H. inversion H; subst. right.
+  exists (names_of pre ++ [last_]). split; [destruct (names_of pre); discriminate|]. split.
+  - apply Forall_app. split; [apply names_of_plain; exact Hp|].
+    constructor; [|constructor]. unfold proper_name. rewrite Eed, Edd. reflexivity.
+  - unfold st1. rewrite rev_app_distr, rev_involutive, <- app_assoc. reflexivity.
+Qed.
+
+(** every path handed to the operating system is the operator's error page for the status of the reply or
+    the file path built for the (accepted, Prime-expanded) request path *)
+Definition os_ok (h : host_cfg) (p : bytes) (o : outcome_t) : Prop :=
+  let '(r, _, _, os) := o in
+  forall f, In f os ->
+    f = error_path h (r_status r) \/
+    ((exists u, sanitize_path p = Ok u) /\ request_fs_path (h_path h) (h_public h) (primed_path h p) = Ok (Some f)).
+
+Lemma error_default_os h rd on fc st :
+  let '(_, _, _, os) := error_default h rd on fc st in forall f, In f os -> f = error_path h st.
+Proof.
+  unfold error_default. destruct (h_fs h); [|intros f []].
+  unfold read_file_cached. destruct (if on then fc_get (error_path h st) fc else None); [intros f []|].
+  intros f [H|[]]. symmetry. exact H.
+Qed.
+
+Lemma err_reply_os h rd on fc st ev os p :
+  (forall f, In f os ->
+     (exists u, sanitize_path p = Ok u) /\ request_fs_path (h_path h) (h_public h) (primed_path h p) = Ok (Some f)) ->
+  os_ok h p (err_reply h rd on fc st ev os).
+Proof.
+  intros H. unfold err_reply. pose proof (error_default_os h rd on fc st) as E.
+  destruct (error_default h rd on fc st) as [[[e ev'] fc'] os']. cbn [os_ok r_status gen_reply].
+  intros f Hf. apply in_app_or in Hf. destruct Hf as [Hf|Hf]; [right; exact (H _ Hf)|left; exact (E _ Hf)].
+Qed.
+
+Lemma serve_st_os h rd on fc m ov cached p : os_ok h p (serve_st h rd on fc m ov cached p).
+Proof.
+  unfold serve_st.
+  destruct (sanitize_path p) as [u|e|] eqn:S.
+  2,3: (destruct cached, m; apply err_reply_os; intros f0' []).
+  assert (F : os_ok h p (serve_fresh h rd on fc m ov p)).
+  { unfold serve_fresh.
+    destruct (h_fs h) eqn:Hfs.
+    2: { destruct (existsb _ (h_prepare_single h)); [intros f []|]. apply err_reply_os. intros f0' []. }
+    destruct (request_fs_path (h_path h) (h_public h) (primed_path h p)) as [path|e|] eqn:R; try (intros f []).
+    destruct (existsb _ (h_prepare_single h)); [intros f []|].
+    destruct path as [f0|]; [|apply err_reply_os; intros f0' []].
+    unfold serve_file.
+    assert (Hr : os_ok h p
+              (let '(c, os) := read_file rd on fc f0 in
+               match c with
+               | Some c => ({| r_status := 200; r_body := Some c; r_err := None; r_from_cache := false |},
+                            (ev0 ++ [EPrepareSingle (match ov with Some k => k | None => primed_path h p end); EPrepareFn]) ++ [EFsRead f0], fc, os)
+               | None => err_reply h rd on fc 404 ((ev0 ++ [EPrepareSingle (match ov with Some k => k | None => primed_path h p end); EPrepareFn]) ++ [EFsRead f0]) os
+               end)).
+    { pose proof (read_file_os rd on fc f0) as O.
+      destruct (read_file rd on fc f0) as [[c|] os]; cbn [snd] in O.
+      - intros f Hf. right. apply O in Hf. subst f. split; [exists u; exact S|exact R].
+      - apply err_reply_os. intros f Hf. apply O in Hf. subst f. split; [exists u; exact S|exact R]. }
+    destruct m; [exact Hr|exact Hr|apply err_reply_os; intros f0' []]. }
+  destruct cached as [cr|], m; try exact F; intros f [].
+Qed.
+
+(** ** What the operating system is asked to open.  For a host with benign options, over any tree [tree] in
+    which the public directory is the object [rev stP]: every object opened while a request is handled (in any
+    file-cache and response-cache state) is the operator's error page for the status of the reply, a directory
+    (no content), or an object strictly below the public directory. *)
+Lemma opened_objects_confined_lemma h rd tree on fc m ov cached p r ev fc' os f stP names isdir :
+  benign_host h ->
+  serve_st h rd on fc m ov cached p = (r, ev, fc', os) -> In f os ->
+  cwalk tree [] (segments (h_path h ++ [c_slash] ++ h_public h)) = Some stP ->
+  opened tree f = Some (names, isdir) ->
+  f = error_path h (r_status r) \/ isdir = true \/
+  exists rel, rel <> [] /\ Forall (fun s => proper_name s = true) rel /\ names = rev stP ++ rel.
+Proof.
+  intros Bh S Hf HP Ho. pose proof (serve_st_os h rd on fc m ov cached p) as O. rewrite S in O.
+  destruct (O f Hf) as [E|[[u Su] R]]; [left; exact E|right].
+  apply sanitize_ok_safe in Su. apply (primed_safe h p Bh) in Su.
+  unfold request_fs_path in R.
+  destruct (decoded_for_use (primed_path h p)) as [d|] eqn:D; [|discriminate].
+  apply decoded_for_use_some in D. destruct D as [D _]. subst d.
+  destruct (percent_decode (primed_path h p)) as [|c t] eqn:Ed; [discriminate|].
+  cbn [parse_uri] in R. destruct (c =? c_slash) eqn:Ec; [|discriminate].
+  apply N.eqb_eq in Ec. subst c. inversion R; subst f.
+  exact (opened_safe_inside tree (h_path h) (h_public h) t stP names isdir Su HP Ho).
+Qed.
